@@ -1,7 +1,7 @@
 """Trace monitors: the properties restated over observable events of an *implementation* trace.
 They are the search-for-a-failing-input part of the checks (never a substitute for the theorems).
 Each monitor returns a list of violations: dict(cls=<class id or None>, what=<text>)."""
-from trace import parse_trace, connections, list_field
+from trace import garbles, qos0_partial,  parse_trace, connections, list_field
 import mqttspec
 
 NETOPS = {1, 2, 3, 4, 5, 6, 7}
@@ -61,8 +61,8 @@ def mon_c01(case_line, acts):
         excused = False
         for i in c['actions']:
             a = acts[i]
-            if a.code == 1 and a.detail == '0' and (a.result == 'cancelled'):
-                excused = True          # a QoS 0 publish is documented as not cancel-safe
+            if a.code == 1 and a.result == 'cancelled' and qos0_partial(a):
+                excused = True          # a QoS 0 publish (also one downgraded to QoS 0) is documented as not cancel-safe
             if any(e[0] == 'w' and e[2] is None and e[3] == 'zero' for e in a.events):
                 excused = True          # Ok(0) for a non-empty buffer breaks the embedded-io contract
             if a.code == 0 and a.result == 'cancelled':
@@ -102,7 +102,7 @@ def mon_c01(case_line, acts):
                 out.append(V('action %d left the partial packet %s on the wire that no queued entry owns; action %d wrote '
                              'more bytes behind it' % (orphan[0], orphan[1].hex(), i),
                              'K01c' if acts[orphan[0]].code == 4 else None))
-                orphan = None
+                break               # from here on the stream of this transport is garbled: one report per transport
             fr, tl, er = mqttspec.split_stream(bytes(sofar))
             st = a.state or {}
             if tl and not er and st.get('live') == '1':
@@ -113,7 +113,11 @@ def mon_c01(case_line, acts):
                             if key != 'ret' or x.split(':')[-1].startswith(tl.hex()):
                                 owned = True
                 if not owned:
-                    orphan = (i, bytes(tl))
+                    orphan = orphan or (i, bytes(tl))      # keep the action that first left it
+                else:
+                    orphan = None
+            elif not tl:
+                orphan = None
             if a.code == 4 and wrote and (a.result or '').startswith('ok'):
                 fr, tl, er = mqttspec.split_stream(bytes(sofar))
                 if tl or er or not fr or fr[-1][0] >> 4 != 14:
@@ -222,14 +226,20 @@ class Flow:
         inb = bytearray()
         wpos = 0
         ipos = 0
+        garbled = False
         for i, a in enumerate(acts):
             if a.code == 0:
                 conn += 1
                 wire = bytearray()
                 inb = bytearray()
                 wpos = ipos = 0
+                garbled = False
                 self.events.append(('newconn', conn, i))
+            if garbles(a, acts[i - 1].state if i > 0 else None):
+                garbled = True      # see trace.garbles: nothing written from here on can be decoded
             for e in a.events:
+                if e[0] == 'w' and e[2] and garbled:
+                    continue
                 if e[0] == 'w' and e[2]:
                     wire += bytes.fromhex(e[3])
                     frames, tail, err = mqttspec.split_stream(wire[wpos:])
@@ -267,9 +277,17 @@ def mon_c06(case_line, acts):
     out = []
     fl = Flow(acts)
     unresolved = {}        # pid -> qos
+    released = set()       # QoS 2 identifiers whose PUBREL has been written
+    subs = set()           # identifiers of SUBSCRIBE / UNSUBSCRIBE packets awaiting their acknowledgement
+    overrun_conn = None
     rm = 65535
     first_on_conn = False
+    # a QoS 0 publish dropped in the middle of its packet (documented as not cancel-safe) garbles the stream: what
+    # the broker — and this monitor — can decode afterwards is undefined, so the accounting stops there
+    garbled = next((i for i, a in enumerate(acts) if garbles(a, acts[i - 1].state if i > 0 else None)), None)
     for ev in fl.events:
+        if garbled is not None and ev[0] in ('tx', 'rx') and ev[-1] >= garbled:
+            return out
         if ev[0] == 'newconn':
             first_on_conn = True
         elif ev[0] == 'rx':
@@ -282,6 +300,8 @@ def mon_c06(case_line, acts):
                     if info:
                         if not info[0]:
                             unresolved = {}
+                            released = set()
+                            subs = set()
                         rm = info[2].get(0x21, 65535)
                         if len(unresolved) > rm:
                             # environment assumption of C06: a resumed CONNACK leaves room for what is carried
@@ -291,19 +311,56 @@ def mon_c06(case_line, acts):
             if len(body) >= 2:
                 pid = (body[0] << 8) | body[1]
                 rc = body[2] if len(body) > 2 else 0
+                if typ in (9, 11):
+                    subs.discard(pid)
+                if typ in (4, 5) and pid in subs and pid not in unresolved:
+                    return out      # a PUBACK / PUBREC naming a SUBSCRIBE or UNSUBSCRIBE: off protocol (same assumption)
+                if typ in (9, 11) and pid in unresolved:
+                    # a SUBACK / UNSUBACK naming a PUBLISH: the broker is off protocol (the client matches
+                    # acknowledgements by identifier only; stated environment assumption of C06 and C18)
+                    return out
                 # the property's own definition: resolved by a PUBACK, a PUBCOMP or a PUBREC with a failure code
                 if typ == 4 and pid in unresolved:
                     del unresolved[pid]
                 elif typ == 5 and pid in unresolved and rc >= 0x80:
                     del unresolved[pid]
                 elif typ == 7 and pid in unresolved:
+                    if pid not in released:
+                        # a PUBCOMP for an exchange whose PUBREL was never sent: the broker is off protocol (the client
+                        # ignores it); same environment assumption as "PUBACK / PUBREC name PUBLISH packets"
+                        return out
                     del unresolved[pid]
+                    released.discard(pid)
         elif ev[0] == 'tx':
             p = ev[2]
+            if p['type'] == 'PUBREL':
+                released.add(p['pid'])
+            if p['type'] in ('SUBSCRIBE', 'UNSUBSCRIBE'):
+                subs.add(p.get('pid'))
+            if p['type'] == 'MALFORMED' and p['first'] >> 4 == 3 and (p['first'] >> 1) & 3:
+                # a PUBLISH the strict decoder rejects (invalid user input such as an empty topic) still occupies a slot
+                try:
+                    n, j = mqttspec.varint(p['raw'], 1)
+                    tl = (p['raw'][j] << 8) | p['raw'][j + 1]
+                    k = j + 2 + tl
+                    p = {'type': 'PUBLISH', 'qos': (p['first'] >> 1) & 3, 'pid': (p['raw'][k] << 8) | p['raw'][k + 1]}
+                except Exception:
+                    return out
             if p['type'] == 'PUBLISH' and p.get('qos', 0) > 0:
+                first_time = p['pid'] not in unresolved
                 unresolved[p['pid']] = p['qos']
                 if len(unresolved) > rm:
                     cls = None
+                    # K06r: on a resumed connection a publish that was accepted (retained) on an earlier connection
+                    # but never reached the wire is sent although the new window is already full
+                    ai = ev[3]
+                    ci = max((j for j in range(ai + 1) if acts[j].code == 0), default=None)
+                    if first_time and ci is not None and (acts[ci].result or '') == 'ok reconnected' and ci > 0 \
+                            and str(p['pid']) in [x.split(':')[0] for x in list_field((acts[ci - 1].state or {}).get('ret', '[]'))]:
+                        cls = 'K06r'
+                        overrun_conn = ev[1]
+                    elif overrun_conn == ev[1]:
+                        cls = 'K06r'      # the client's quota stays off by the overrun for the rest of that connection
                     out.append(V('%d unresolved QoS>0 PUBLISH packets (ids %s) with Receive Maximum %d'
                                  % (len(unresolved), sorted(unresolved), rm), cls))
     return out
@@ -476,6 +533,12 @@ def mon_c02(case_line, acts):
                 if pos < last_pos:
                     out.append(V('retained PUBLISH packets written out of acceptance order at action #%d' % i))
                 last_pos = max(last_pos, pos)
+        # an identifier that has left the retained list (acknowledged, or wiped by a fresh broker session) may be used
+        # again by a new message with the very same bytes: forget its history
+        if a.code == 0 and a.result == 'ok connected':
+            first_conn.clear()
+        for key in [k for k in first_conn if after.get(k[0]) != k[1]]:
+            del first_conn[key]
     return out
 
 
@@ -743,6 +806,8 @@ def mon_c10(case_line, acts):
             tainted = False; outstanding = None; last = None; live = False
         if a.code == 9:
             last = None
+        if garbles(a, acts[i - 1].state if i > 0 else None):
+            tainted = True
         cause = None       # a reason other than keep-alive for this action to report Disconnected
         if not live:
             cause = 'dead'
@@ -868,12 +933,18 @@ def _ordered_events(acts):
     flushes, in the order in which they happened"""
     per = []
     wire = bytearray(); inb = bytearray(); wpos = ipos = 0
-    for a in acts:
+    garbled = False
+    for ai, a in enumerate(acts):
         seq = []
         if a.code == 0:
             wire = bytearray(); inb = bytearray(); wpos = ipos = 0
+            garbled = False
+        if garbles(a, acts[ai - 1].state if ai > 0 else None):
+            garbled = True
         for e in a.events:
-            if e[0] == 'w' and e[2]:
+            if e[0] == 'w' and e[2] and garbled:
+                seq.append(('garbled',))
+            elif e[0] == 'w' and e[2]:
                 wire += bytes.fromhex(e[3])
                 frames, tail, err = mqttspec.split_stream(wire[wpos:])
                 for first, body, raw in frames:
@@ -912,6 +983,8 @@ def mon_c04(case_line, acts):
         if a.code == 0:
             sent = done
         for ev in per[i]:
+            if ev[0] == 'garbled':
+                return out          # the outbound stream cannot be decoded any more (QoS 0 publish dropped mid-packet)
             if ev[0] == 'flush':
                 done = sent
             elif ev[0] == 'tx':
@@ -953,7 +1026,9 @@ def mon_c04(case_line, acts):
                     if len(unacked) > 8:
                         return out
                 elif typ == 6:
-                    if len(body) < 2:
+                    if len(body) < 2 or first != 0x62 or len(body) > 3 + 0:
+                        # a malformed PUBREL (reserved flags, short, or with properties this monitor does not decode):
+                        # the broker is not the well-behaved one C04 quantifies over
                         return out
                     pid = (body[0] << 8) | body[1]
                     if pid in pending:
@@ -964,8 +1039,9 @@ def mon_c04(case_line, acts):
                 elif typ == 14:
                     return out
         res = a.result or ''
-        if res.startswith('err InflightExhausted') or res.startswith('err PacketTooLarge') or res in ('PANIC', 'FUEL'):
-            return out
+        if res.startswith('err InflightExhausted') or res.startswith('err PacketTooLarge') or res in ('PANIC', 'FUEL') \
+                or res.startswith('err InvalidPacket'):
+            return out          # malformed broker data or a local refusal: outside the premises of C04
         if res.startswith('ok msg'):
             f = dict(x.split('=', 1) for x in res.split(' ')[2:] if '=' in x)
             if not expected_msgs:
